@@ -85,6 +85,8 @@ class VennInterp(ResultInterp):
         if isinstance(base, Regions):
             if attr == "ndim":
                 return self.root.__dict__.get("ndim", Unknown("ndim"))
+            if attr == "dtype" and not base.raw:
+                return Sym("builtin:bool")  # result of a logical operation / comparison
             if attr in ("shape", "dtype", "size"):
                 return Sym(f"mask.{attr}")
             return _RMethod(base, attr)
@@ -115,13 +117,22 @@ class VennInterp(ResultInterp):
 
     def external_call(self, name, args, kwargs, node):
         a = args
-        if name in ("numpy.logical_and", "numpy.logical_or", "numpy.logical_xor", "numpy.bitwise_and", "numpy.bitwise_or", "numpy.multiply", "numpy.minimum", "numpy.maximum") and len(a) >= 2 and isinstance(a[0], Regions) and isinstance(a[1], Regions) and len(a) == 2 and not kwargs:
-            x, y = a
+        if name in ("numpy.logical_and", "numpy.logical_or", "numpy.logical_xor", "numpy.bitwise_and", "numpy.bitwise_or", "numpy.multiply", "numpy.minimum", "numpy.maximum") and len(a) in (2, 3) and isinstance(a[0], Regions) and isinstance(a[1], Regions) and not (set(kwargs) - {"out"}):
+            x, y = a[0], a[1]
             if name in ("numpy.logical_and", "numpy.bitwise_and", "numpy.multiply", "numpy.minimum"):
-                return Regions(x.regs & y.regs, x.universe)
-            if name in ("numpy.logical_or", "numpy.bitwise_or", "numpy.maximum"):
-                return Regions(x.regs | y.regs, x.universe)
-            return Regions(x.regs ^ y.regs, x.universe)
+                res = Regions(x.regs & y.regs, x.universe)
+            elif name in ("numpy.logical_or", "numpy.bitwise_or", "numpy.maximum"):
+                res = Regions(x.regs | y.regs, x.universe)
+            else:
+                res = Regions(x.regs ^ y.regs, x.universe)
+            out = a[2] if len(a) == 3 else kwargs.get("out")
+            if out is None:
+                return res
+            if isinstance(out, Regions) and not out.raw:
+                # written into a mask the kernel computed itself: every name bound to it sees the result
+                out.regs = res.regs
+                return out
+            return Unknown("logical operation written into an input / unmodelled buffer")
         if name in ("numpy.logical_not", "numpy.invert") and a and isinstance(a[0], Regions):
             return Regions(frozenset(a[0].universe) - a[0].regs, a[0].universe)
         if name in ("numpy.sum", "numpy.count_nonzero") and a and isinstance(a[0], Regions) and not kwargs and len(a) == 1:
@@ -144,6 +155,8 @@ class VennInterp(ResultInterp):
         return super().external_call(name, args, kwargs, node)
 
     def call_builtin(self, name, args, kwargs, node):
+        if name == "type" and len(args) == 1 and isinstance(args[0], Regions):
+            return Sym("ext:numpy.ndarray")
         if name in ("float", "int") and args and isinstance(args[0], Count):
             return Count(args[0].rat, False)
         return super().call_builtin(name, args, kwargs, node)
